@@ -169,7 +169,7 @@ ARGS = [('i', Integer), ('u', Unicode), ('d', Date), ('t', DateTime), ('b', Byte
 VALID = {'i': 5, 'u': 'x', 'd': '2020-02-29', 't': '2020-02-29T10:00:00', 'b': 'YWJj', 'a': [1, 2], 'c': {'x': 1, 's': 'y'},
          'n': '1.5', 'f': 1.5, 'o': True, 'r': 'PT1S', 'z': '12345678-1234-5678-1234-567812345678'}
 VALID_MSGPACK = dict(VALID, b=b'abc')          # MessagePack carries binary data as bin, not as base64 text
-KINDS = [None, True, 7, 2.5, 'text', '', [], [1, 'x'], {}, {'k': 1}, [[1]], 10 ** 30]
+KINDS = [None, True, 7, 2.5, 'text', '', [], [1, 'x'], {}, {'k': 1}, [[1]], 10 ** 30, float('nan'), float('-inf'), 'NaN']
 
 
 def _svc(calls):
@@ -227,8 +227,8 @@ def _verdict(c, family, out, seen, resp, calls, detail):
 
 def _mk_kinds(family, validator):
     @obligation('C10.kinds.%s.%s' % (family, validator or 'none'), targets=['spyne.server.wsgi:WsgiApplication.__call__'],
-                bounded="12 argument positions x 12 value kinds (null, bool, int, float, text, empty text, lists, maps, "
-                        "nested list, huge int) + wrong top-level shapes",
+                bounded="12 argument positions x 15 value kinds (null, bool, int, float, text, empty text, lists, maps, "
+                        "nested list, huge int, NaN, -inf, the text 'NaN') + wrong top-level shapes",
                 desc="dict documents: any JSON/YAML/MessagePack value kind at any argument position ends in a normal "
                      "response or a Client fault; no exception escapes; the user function does not run for a faulted "
                      "request")
@@ -303,13 +303,20 @@ XML_MUTATIONS = {
     'huge_int': lambda a: a.replace('<tns:i>5<', '<tns:i>' + '9' * 2000 + '<'),
     'negative_year': lambda a: a.replace('<tns:d>2020-', '<tns:d>-2020-'),
     'offset_99': lambda a: a.replace('T10:00:00<', 'T10:00:00+99:99<'),
+    # the special values of the number parsers: not numbers, signalling, infinite
+    'decimal_nan': lambda a: a.replace('<tns:n>1.5<', '<tns:n>NaN<'),
+    'decimal_snan': lambda a: a.replace('<tns:n>1.5<', '<tns:n>sNaN<'),
+    'decimal_inf': lambda a: a.replace('<tns:n>1.5<', '<tns:n>-Infinity<'),
+    'double_nan': lambda a: a.replace('<tns:f>1.5<', '<tns:f>nan<'),
+    'double_inf': lambda a: a.replace('<tns:f>1.5<', '<tns:f>-inf<'),
+    'int_nan': lambda a: a.replace('<tns:i>5<', '<tns:i>NaN<'),
 }
 
 
 def _mk_xml(family, validator):
     @obligation('C10.xml_mutations.%s.%s' % (family, validator or 'none'),
                 targets=['spyne.server.wsgi:WsgiApplication.__call__'],
-                bounded="25 structure-aware mutations of a valid 12-argument request",
+                bounded="31 structure-aware mutations of a valid 12-argument request",
                 desc="XML families: leaf corruption, deletion, duplication, unknown members, wrong nesting end in a normal "
                      "response or a Client fault; no exception escapes; no user code on fault")
     def ob(c):
